@@ -94,6 +94,7 @@ add("unique-items-by-deep-equal-only","C14","values.go","\t\t\tif valuesEqual(v,
 add("self-parent-not-looked-up","C07","spec.go","\tif viaRef || (schn != nm && schn != \"\") {","\tif (viaRef && schn != nm) || (schn != nm && schn != \"\") {","REF-WALK:(*SpecValidator).validateCircularAncestry:recursion")
 add("alias-loop-unbounded","C07","spec.go","\t\tif _, again := followed[ref]; again {\n\t\t\treturn append(ancs, ref), res\n\t\t}\n","","REF-WALK:(*SpecValidator).validateCircularAncestry:loop", quick=False)
 add("options-appended-in-place","C05","schema.go","\topts := make([]Option, 0, len(options)+2)\n\topts = append(opts, options...)\n\topts = append(opts, WithRecycleValidators(true), withRecycleResults(true))\n","\topts := append(options, WithRecycleValidators(true), withRecycleResults(true))\n","VARIADIC-APPEND:AgainstSchema:options", quick=False)
+add("expansion-assumed-after-whole-document","C07","spec.go","\tprobe, err := deepCloneSchema(*schema)\n\tif err != nil {\n\t\treturn false\n\t}\n\n\treturn spec.ExpandSchema(&probe, s.spec.Spec(), nil) == nil","\tif s.expanded != nil {\n\t\treturn true\n\t}\n\tprobe, err := deepCloneSchema(*schema)\n\tif err != nil {\n\t\treturn false\n\t}\n\n\treturn spec.ExpandSchema(&probe, s.spec.Spec(), nil) == nil","EXPAND-FIRST:", quick=False)
 json.dump(C, open('/verif/tables/controls.json','w'), indent=1)
 import os
 for c in C:
